@@ -71,6 +71,7 @@ type Unit struct {
 	specN    int
 	specPure map[string]string
 	heapReads int
+	opaqueSpecs map[string]bool
 }
 
 type InputDesc struct {
@@ -85,7 +86,7 @@ func newUnit(eng *Engine, fn *ssa.Function, fc *FuncContract, name string) *Unit
 		te:       &TypeEnc{sc: sc, structSorts: map[string]bool{}},
 		rsorts:   map[string]string{}, counters: map[string]int{}, strs: map[string]Term{}, tags: map[string]int{},
 		usedExterns: map[string]bool{}, inlined: map[string]bool{}, havocked: map[string]bool{}, bvMode: true,
-		specDefs: map[string]string{}, specBusy: map[string]string{}, specRec: map[string]bool{}, specPure: map[string]string{}}
+		specDefs: map[string]string{}, specBusy: map[string]string{}, specRec: map[string]bool{}, specPure: map[string]string{}, opaqueSpecs: map[string]bool{}}
 	u.wm0 = sc.declare("wm@0", SInt)
 	u.assume(tTrue, mk(SBool, ">", u.wm0, intConst(0)))
 	return u
